@@ -56,4 +56,5 @@ def run(rep, fb, tier):
     __import__("vf.rules.binding2", fromlist=["x"]).rule_binding_call_roles(rep, fb)
     __import__("vf.rules.pyrules4", fromlist=["x"]).rule_py_pack_reenters(rep)
     __import__("vf.rules.pyrules4", fromlist=["x"]).rule_py_dunder_other(rep)
+    __import__("vf.rules.pyrules5", fromlist=["x"]).rule_py_none_after_loop(rep)
     rep.units = fb.units + ["src/awkward/operations/convert.py, highlevel.py, _util.py, partition.py (ast)"]
